@@ -21,6 +21,11 @@ CHECKS["C01"] = dict(
    text="Generated-input search with an explicit oracle: for generated datasets, expression trees over every elementary selection kind and edit-mode programs, the composite's mask must equal numpy logical ops over the masks of freshly built leaves, before and after generated evaluation schedules, copies and views, and every operand must keep its parameters and mask.",
    note="Trusted: numpy logical ops; leaf masks are taken from glue itself (fresh leaves), so leaf correctness is not established here (C04/C08/C09).",
    ref="DESIGN.md section 4 C01")
+CHECKS["C08"] = dict(
+   technique="property-based testing (Hypothesis) against an exact signed-distance geometry oracle, plus metamorphic move/rotate/copy/round-trip relations",
+   text="Generated regions (all ROI classes, angles at/near multiples of pi/2, thin shapes, concave open/closed polygons, projected 3-d with chunk limits) and point sets with probe rings hugging the true boundary in many array layouts; contains() must equal the sign of an independently computed signed distance off a 1e-7 band; move_to/rotate_to/to_polygon/copy/serialiser round trip are checked as metamorphic relations with the same oracle.",
+   note="Trusted: the signed-distance code in pbt/oracles/geometry.py; tolerance band 1e-7*scale; simple polygons only.",
+   ref="DESIGN.md section 4 C08")
 NOT_APPLICABLE = []
 
 def main():
